@@ -88,7 +88,7 @@ CLAIMS = {
 }
 
 hook_commits = subprocess.run(["git", "-C", "/repo", "log", "--format=%h %s"], stdout=subprocess.PIPE, text=True).stdout.splitlines()
-hook_commits = [l.split()[0] for l in hook_commits if l.split(" ", 1)[1].startswith(("verifhook", "verif hooks"))]
+hook_commits = [l.split()[0] for l in hook_commits if l.split(" ", 1)[1].startswith(("verifhook", "verif hooks", "verif hook"))]
 
 m = {
  "version": 1,
